@@ -94,7 +94,7 @@ func ctxScenario(p ctxParams) func() {
 		}
 		w.Start(c)
 		if !p.pre {
-			mc.GoNamed("cancel", func() { c.Cancel(p.cause) })
+			mc.GoLow("cancel", func() { c.Cancel(p.cause) })
 		}
 		mc.Quiesce()
 		name := p.name()
